@@ -8,6 +8,7 @@ import (
 	"fmt"
 	"io"
 	"net"
+	"sort"
 	"strings"
 
 	"storj.io/drpc/drpcmigrate"
@@ -321,6 +322,94 @@ func rerouteScenario() *mc.Scenario {
 	return &mc.Scenario{Name: "mux-reroute[close a routed listener, register its prefix again, connect]", Body: body, Check: check, Model: sched.Deviation, NoCache: true}
 }
 
+// reuseScenario: a long-running multiplexer serves connections one after the other and two at a
+// time; the application closes every accepted connection twice (a deferred Close plus an explicit
+// one, which net.Conn allows). Whatever the multiplexer keeps between connections must not make
+// a later connection see another connection's bytes or take another connection's route.
+func reuseScenario(first string) *mc.Scenario {
+	body := func() {
+		st := &muxState{acceptErrors: map[string]int{}}
+		sched.Cur().State()["st"] = st
+		base := &fakenet.Listener{}
+		mux := drpcmigrate.NewListenMux(base, 2)
+		ctx, cancel := context.WithCancel(context.Background())
+		route := mux.Route("AA")
+		vs.Go("run", func() { st.runErr = mux.Run(ctx); st.runReturned = true })
+		acceptLoop := func(who string, lis net.Listener) {
+			for {
+				c, err := lis.Accept()
+				if err != nil {
+					st.acceptErrors[who]++
+					return
+				}
+				got, _ := io.ReadAll(c)
+				st.accepts = append(st.accepts, accepted{by: who, got: got})
+				_ = c.Close()
+				_ = c.Close()
+			}
+		}
+		vs.Go("acc-route", func() { acceptLoop("route", route) })
+		vs.Go("acc-default", func() { acceptLoop("default", mux.Default()) })
+		connect := func(i int, data string, readMax int) {
+			c, s := tr.New(fmt.Sprintf("c%d", i), fmt.Sprintf("s%d", i), tr.Options{Cap: -1, ReadMax: readMax})
+			base.Push(fakenet.Conn{End: s})
+			vs.Go(fmt.Sprintf("client%d", i), func() { _, _ = c.Write([]byte(data)); _ = c.Close() })
+		}
+		want := map[string]string{} // what each listener must yield, by client data
+		expect := func(data string) {
+			if strings.HasPrefix(data, "AA") {
+				want["route/"+data[2:]] = data
+			} else {
+				want["default/"+data] = data
+			}
+		}
+		// one connection at a time, then two whose prefix reads can overlap (1-byte reads)
+		connect(0, first, 0)
+		expect(first)
+		sched.Quiesce()
+		connect(1, "AAy", 1)
+		connect(2, "BBz", 1)
+		expect("AAy")
+		expect("BBz")
+		sched.Quiesce()
+		for _, a := range st.accepts {
+			k := a.by + "/" + string(a.got)
+			if _, ok := want[k]; !ok {
+				st.failf("the %s listener accepted a connection yielding %q, which is not what any client sent for it (clients sent %q, \"AAy\", \"BBz\"; prefix \"AA\" is routed)", a.by, a.got, first)
+			}
+			delete(want, k)
+		}
+		var missing []string
+		for k := range want {
+			missing = append(missing, k)
+		}
+		sort.Strings(missing)
+		for _, k := range missing {
+			st.failf("the connection of the client that sent %q was never delivered as %s; blocked=%s", want[k], k, wl.BlockedSummary(sched.BlockedNow()))
+		}
+		wl.Cancel(cancel)
+		sched.Quiesce()
+		if !st.runReturned {
+			st.failf("Run did not return; blocked=%s", wl.BlockedSummary(sched.BlockedNow()))
+		}
+		if lib := wl.LibBlocked(sched.BlockedNow()); len(lib) > 0 {
+			st.failf("multiplexer goroutines left behind: %s", wl.BlockedSummary(lib))
+		}
+		sched.Observef("accepts=%d", len(st.accepts))
+	}
+	check := func(e *sched.Exec) string {
+		if len(e.Panics) > 0 {
+			return "panic: " + e.Panics[0]
+		}
+		st := e.State()["st"].(*muxState)
+		if len(st.fails) > 0 {
+			return st.fails[0]
+		}
+		return ""
+	}
+	return &mc.Scenario{Name: fmt.Sprintf("mux-reuse[%q alone, closed twice ; then \"AAy\" and \"BBz\" together, 1-byte reads]", first), Body: body, Check: check, Model: sched.Deviation, NoCache: true}
+}
+
 func closedCount(ends []*tr.End) int {
 	n := 0
 	for _, s := range ends {
@@ -449,6 +538,9 @@ func basePlans(tier string) []mc.Plan {
 		ps = append(ps, mc.Plan{Scen: muxScenario([]connSpec{{"AAx", []int{1, 2}}}, stop, true), Bounds: b, Split: len(b) > 2})
 	}
 	ps = append(ps, mc.Plan{Scen: rerouteScenario(), Bounds: []int{0, 1, 2}, Split: true})
+	for _, first := range []string{"BBx", "AAx"} {
+		ps = append(ps, mc.Plan{Scen: reuseScenario(first), Bounds: []int{0, 1, 2}, Split: true})
+	}
 	pats := [][]string{{}, {"a"}, {"", "b"}, {"ab", "c"}, {"a", "", "bc"}}
 	for _, p := range pats {
 		ps = append(ps, mc.Plan{Scen: headerScenario([][]string{p}), Bounds: []int{-1}})
